@@ -452,4 +452,19 @@ static Reg r_pool_pages("pool.pages", [](const std::vector<std::string> &a) -> s
   return "ok pages=" + std::to_string(k + 1) + " bytes=" + std::to_string(total);
 });
 
+// ---------------------------------------------------------------- util::MutableVocab (train_case / apply_case / truecase word ids)
+// mvocab.run <hexword> ...: FindOrInsert every word in order, then Find every word again.
+//   -> ok <id>... | <id>... size=<Size()>        (ids as the vocabulary hands them out; 0 is <unk>)
+#include "util/mutable_vocab.hh"
+static Reg r_mvocab("mvocab.run", [](const std::vector<std::string> &a) -> std::string {
+  util::MutableVocab v;
+  std::vector<std::string> words(a.size());
+  for (size_t i = 0; i < a.size(); ++i) if (!unhex(a[i], words[i])) return "bad-op";
+  std::string out = "ok";
+  for (const std::string &w : words) out += " " + std::to_string(v.FindOrInsert(w));
+  out += " |";
+  for (const std::string &w : words) out += " " + std::to_string(v.Find(w));
+  return out + " size=" + std::to_string(v.Size());
+});
+
 int main() { return pv::main_loop(); }
